@@ -20,6 +20,31 @@ Third wave (domains in mc/domains/w3_c18.py):
   read just before formatting, and formatting must leave them untouched;
 * every ordered pair of the 25 unit choices written one after the other from
   the same object (the second text is judged).
+
+Fourth wave (domains and the sharper comparison in mc/domains/w4_c18.py):
+* "six significant digits" is judged a second time in EVERY family, after the
+  first comparison (relative 1e-5, kept) found nothing: a temperature, and a
+  value in the dimensional form, may come back at most half a unit of the
+  sixth significant digit of the number as written away from what was
+  formatted (that is what one correct rounding to six digits costs);
+* temperatures: 24 six-digit temperatures around the values a loader could
+  take for granted (298.15 K +- 1..6, 10 units of the sixth digit; 298, 300,
+  273.15, 1000 K +- 1 unit) and 5 needing more than six digits (298.15 K +-
+  0.4, 0.6 unit, the next float), each placed in T_ref, a tabulated
+  temperature, the lower and the upper end of the range, of a correlation
+  with and without a Cp table, built directly and by loading, x 5 unit
+  choices (none; K, kK, mK, MK dimensional);
+* ranges: every (lo, lo + w) for lo in {200, 298.15, 300, 1000} K and w in
+  {0, .001, .1, .4, .6, 1, 2, 10, 1e5} units of the sixth digit of lo (a
+  single temperature; two ends written as the same number; as neighbouring
+  numbers; ordinary) x {no Cp and T_ref outside, no Cp and T_ref = lo, Cp
+  table on the ends} x {direct, loaded} x the 5 unit choices;
+* six-digit data: values that are exactly +-m x 10**e [units] for 14 mantissas
+  m over the whole decade (1, 1.00001 ... 9.99999, and 9.999994, 9.999995,
+  1.000005) and e in -1..2 (thorough -3..4), in H_ref, S_ref and two Cp
+  points, for all 9 enthalpy x entropy unit pairs and T_ref 298.15 (thorough:
+  and 500), built by loading a file in those units and directly, written in the same
+  units.
 """
 import itertools
 import os
@@ -29,6 +54,7 @@ from ..runner import Result
 from ..domains import estimates as E
 from ..domains import libs
 from ..domains import w3_c18 as W
+from ..domains import w4_c18 as X
 
 TWO_HASH_SEEDS = ('thorough',)   # tiers in which the space is walked under a second PYTHONHASHSEED
 LEVEL = 'exploration'
@@ -50,9 +76,19 @@ BOUND = {t: 'table sizes %s (with and without a zero entry) x 7 H x 3 S x 2 '
             'pairs); all sequences of %d of the 7 public mutators x 3 starting '
             'correlations x 3 unit choices, written and read back before the '
             'first and after every step; all 625 ordered pairs of unit choices '
-            'written from one object'
+            'written from one object; 29 temperatures (24 six-digit ones around '
+            '298.15/298/300/273.15/1000 K, 5 needing more digits) x {T_ref, table '
+            'temperature, range lower end, range upper end} x {with, without Cp '
+            'table} x {direct, loaded} x 5 unit choices (none, K, kK, mK, MK); '
+            'ranges (lo, lo + w): 4 lo x 9 widths from 0 through fractions of a '
+            'unit of the sixth digit to ordinary x 3 shapes x {direct, loaded} x '
+            '5 unit choices; six-digit dimensional data +-14 mantissas x 10**e, e '
+            'in %s, in H, S and two Cp points x 9 enthalpy/entropy unit pairs x %s '
+            'T_ref x {loaded from a file in those units, direct}, written in the '
+            'same units'
             % ([0, 1, 2, 3] if t == 'quick' else [0, 1, 2, 3, 7, 15],
-               '-9..9' if t == 'quick' else '-12..12', W.hist_len(t))
+               '-9..9' if t == 'quick' else '-12..12', W.hist_len(t),
+               '-1..2' if t == 'quick' else '-3..4', 1 if t == 'quick' else 2)
          for t in ('quick', 'thorough')}
 RULE = ('each correlation is formatted with yaml_format(units), the text '
         'loaded back, and the two objects compared field by field as the '
@@ -64,10 +100,28 @@ RULE = ('each correlation is formatted with yaml_format(units), the text '
         'expectation of a step is a plain copy of the object\'s fields taken '
         'just before it is formatted (so a text remembered from an earlier '
         'state, or a formatter that edits the object, is seen), and a mutator '
-        'that raises ends that history without a verdict')
+        'that raises ends that history without a verdict.  Fourth wave: when '
+        'the first comparison finds nothing, every case of every family is '
+        'compared again with "six significant digits" read as: at most half a '
+        'unit of the sixth significant digit of the number as it is written in '
+        'the chosen units (mc/domains/w4_c18.py: strict_problems); the cases of '
+        'the temperature, range and six-digit-data families all count as '
+        'non-trivial; a correlation of those families that cannot be constructed '
+        '(source-unbuildable) has no verdict')
 ASSUMPTIONS = ['"six significant digits" is judged with a relative tolerance '
-               'of 1e-5 (two roundings can compound in the dimensional form)',
-               'T_ref values are exactly representable in six digits',
+               'of 1e-5 (two roundings can compound in the dimensional form) and, '
+               'since the fourth wave, also as half a unit of the sixth digit of '
+               'the written number (times 1 + 1e-9 for conversion noise); which '
+               'digit is the sixth is computed with this harness\'s own constants '
+               '(R = 8.314472 J/(mol K), 1 cal = 4.184 J)',
+               'T_ref values are exactly representable in six digits, except five '
+               'members of the temperature family; for those the reference '
+               'enthalpy may additionally deviate by the relative amount T_ref '
+               'itself was rounded by (it is written multiplied by T_ref and read '
+               'divided by the rounded T_ref)',
+               'two tabulated temperatures that are written as the same six-digit '
+               'number are not part of any family (they cannot come back as two '
+               'points)',
                'histories use only the documented mutator methods (no direct '
                'attribute assignment); a mutator raising (e.g. update() after '
                'del_ND_Cp() left the table as None) is outside this property']
@@ -84,7 +138,12 @@ MANIFEST = dict(
          '1e-12..1e12) in every value slot under 25 unit choices incl. mK and '
          'MK, of one object written again after each of its mutators was '
          'applied (all sequences up to the bound), and of one object written '
-         'in two unit choices in a row.',
+         'in two unit choices in a row.  Temperatures that need all six digits '
+         '(or more) in every temperature slot, ranges whose two ends are written '
+         'as the same or as neighbouring six-digit numbers, and dimensional data '
+         'that are exactly six-digit numbers in the units they are written in '
+         'must come back to within half a unit of the sixth digit; that sharper '
+         'reading is applied to every case of every family.',
     note='Values come from a small alphabet chosen to hit zero, absence, '
          'exponent notation and numpy scalar types.',
     ref='5/C18')
@@ -251,6 +310,8 @@ def roundtrip(R, src, units, wit, label, nontrivial, head='roundtrip', snap=Fals
             else:
                 back = load_lib_text(lib_text(text))
             probs = compare(src, back, dimensional)
+            if not probs:      # fourth wave: "six digits" = half a unit of the sixth
+                probs = X.strict_problems(src, back, units)
         except Exception as e:      # noqa
             probs = ['cannot be loaded back (%s: %s)' % (type(e).__name__, str(e)[:120])]
         R.outcomes['%s:%s' % (how, 'same' if not probs else 'differs')] += 1
@@ -385,6 +446,64 @@ def run_pair(R, i, n):
             pair_one(R, a, b)
 
 
+def x_units(ui):
+    return W.EXT_UNITS[ui]
+
+
+def x_one(R, kind, key, built, uis):
+    """One correlation of a fourth-wave family (kind 'temp' | 'range' | 'six'),
+    built one way, written in the unit choices uis (indices into EXT_UNITS)."""
+    if kind == 'temp':
+        T, slot, shape = key
+        c = X.temp_case(float(T), slot, shape)
+        label = 'temperature %r in %s of a %s correlation (%s)' % (T, slot, shape, built)
+        text = None
+    elif kind == 'range':
+        lo, w, shape = key
+        c = X.range_case(float(lo), float(w), shape)
+        label = 'range %r (width %g units of the sixth digit), %s (%s)' % (
+            c['rng'], w, shape, built)
+        text = None
+    else:
+        d, bi, tref = key
+        units = W.BASE_UNITS[bi]
+        c = X.six_case(float(d), units, float(tref))
+        label = ('six-digit datum %r in H_ref [%s], S_ref, Cp(200), -Cp(600) [%s], '
+                 'T_ref %r (%s)' % (d, units['molar enthalpy'], units['molar entropy'],
+                                    tref, built))
+        text = X.six_text(float(d), units, float(tref))
+    try:
+        if built == 'loaded':
+            src = load_lib_text(lib_text(text if text is not None
+                                         else W.dimensional_text(c)))
+        else:
+            src = build_direct(c, 'direct')
+    except Exception as e:      # noqa
+        R.evals += 1
+        R.outcomes['source-unbuildable:' + type(e).__name__] += 1
+        return
+    for ui in uis:
+        roundtrip(R, src, x_units(ui),
+                  dict(kind=kind, key=list(key), built=built, unit=ui),
+                  label, True, head=kind)
+
+
+def x_cases(kind, tier):
+    if kind == 'temp':
+        return [(k, X.TEMP_UNITS) for k in X.temp_cases()]
+    if kind == 'range':
+        return [(k, X.TEMP_UNITS) for k in X.range_cases()]
+    return [((d, bi, tref), [bi]) for (d, bi, tref) in X.six_cases(tier)]
+
+
+def run_x(R, kind, i, n, tier):
+    for k, (key, uis) in enumerate(x_cases(kind, tier)):
+        if k % n != i:
+            continue
+        for built in ('direct', 'loaded'):
+            x_one(R, kind, key, built, uis)
+
+
 def shards(tier, seed):
     out = []
     n = 16 if tier == 'quick' else 48
@@ -401,6 +520,9 @@ def shards(tier, seed):
         out.append(('hist', i, n))
     for i in range(2):
         out.append(('pair', i, 2))
+    for kind, n in (('temp', 4), ('range', 2), ('six', 4 if tier == 'quick' else 16)):
+        for i in range(n):
+            out.append((kind, i, n))
     return out
 
 
@@ -414,6 +536,8 @@ def run_shard(shard, tier):
         run_hist(R, shard[1], shard[2], tier)
     elif shard[0] == 'pair':
         run_pair(R, shard[1], shard[2])
+    elif shard[0] in ('temp', 'range', 'six'):
+        run_x(R, shard[0], shard[1], shard[2], tier)
     else:
         run_lib(R, shard[1], shard[2], shard[3])
     return R
@@ -431,6 +555,8 @@ def replay(w):
         history_one(R, w['start'], tuple(w['ops']), w['unit'])
     elif w['kind'] == 'pair':
         pair_one(R, w['first'], w['unit'])
+    elif w['kind'] in ('temp', 'range', 'six'):
+        x_one(R, w['kind'], tuple(w['key']), w['built'], [w['unit']])
     else:
         run_lib(R, w['lib'], 0, 1, only=(w['group'], w['unit']))
     return dict(violates=bool(R.violations),
